@@ -354,7 +354,9 @@ def read_csv(filename, has_colnames=True, archive=None,
                     cn2 = re.sub(", *", "-", cn2)
                     linecols = re.sub(re.escape(cn), cn2, linecols)
 
-            cns = linecols.strip().split(",")
+            # Only the line terminator is removed: blanks belong
+            # to the first and last column names
+            cns = linecols.rstrip("\r\n").split(",")
         else:
             cns = kwargs["names"]
             kwargs.pop("names")
